@@ -208,3 +208,25 @@ def step_justification_font(tmp):
     t["Silf"] = bytes(silf)
     open(p, "wb").write(sfnt.build_sfnt(t))
     return p
+
+
+def lineend_fonts(tmp, names=("charis_r_gr.ttf", "Padauk.ttf", "Scheherazadegr.ttf")):
+    """Shipped fonts with bit 0 of the Silf flags set ("line end contextuals": gr_seg_justify brackets the line with
+    marker slots while the justification passes run, and removes them again).  Valid; no shipped font sets it."""
+    from fontgen import sfnt
+    out = []
+    for name in names:
+        p = os.path.join(tmp, "lineend_" + name)
+        if not os.path.exists(p):
+            S = sfnt.Sfnt(os.path.join(F, name))
+            t = {k: S.table(k) for k in S.order}
+            silf = bytearray(t["Silf"])
+            ver = int.from_bytes(silf[0:4], "big")
+            q = 4 + (4 if ver >= 0x00030000 else 0)
+            sub = int.from_bytes(silf[q + 4:q + 8], "big")
+            hdr = sub + (8 if ver >= 0x00030000 else 0)
+            silf[hdr + 11] |= 1
+            t["Silf"] = bytes(silf)
+            open(p, "wb").write(sfnt.build_sfnt(t))
+        out.append(p)
+    return out
